@@ -395,7 +395,7 @@ func (c *conn) Read(buf []byte) (int, error) {
 		if !ok {
 			return 0, c.mux.error()
 		}
-		if cap(buf) < len(msg) {
+		if len(buf) < len(msg) {
 			return 0, syscall.ENOMEM
 		}
 	}
